@@ -508,6 +508,38 @@ def t4_v3_big(sx):
     return exercise(sx, w, "tt4:v3-large-nlen", max_cmds=700)
 
 
+def t4_v3_32k(sx):
+    """mapping version 3 with an NDEF file of 36 KiB whose contents differ
+    from address to address; message lengths that end just below, at and
+    above offset 8000h (READ BINARY carries a 15-bit offset; with bit 8 of P1
+    set the card reads P1 as a short file identifier, ISO/IEC 7816-4)"""
+    mfs = 0x9000
+    w = worlds.T4World(sx, 0x30, 255, 255, mfs, 3, fill=0x41)
+    f = w.sim.files[0xE104]
+    nlen = sx.pick("nlen", [0x7FFB, 0x7FFC, 0x7FFD, 0x8123])
+    f[0:4] = [0, 0, nlen >> 8, nlen & 0xFF]
+    for i in range(4, mfs):
+        f[i] = (i * 3 + (i >> 8) * 7 + (i >> 15) * 101) & 0xFF
+    kind = "tt4:v3-file-above-32k"
+    w.sim.max_cmds = 2000
+    try:
+        tag = w.fresh_tag()
+        ndef = tag.ndef if tag is not None else None
+    except tags.TooManyCommands:
+        sx.check(False, "unbounded-number-of-commands:" + kind)
+    if ndef is None:
+        sx.reach("v3_32k_none")
+        return "no-ndef"
+    sx.reach("v3_32k_object")
+    octets = ndef.octets
+    sx.check(len(octets) == ndef.length, "length-differs-from-octets:" + kind)
+    sx.check(ndef.length <= ndef.capacity, "length-exceeds-capacity:" + kind)
+    sx.check(len(octets) <= mfs - 4, "octets-outside-data-area:" + kind)
+    if bytes(bytearray(octets)) != bytes(bytearray(f[4:4 + len(octets)])):
+        sx.check(False, "octets-are-not-what-the-data-area-holds:" + kind)
+    return "ndef:%d" % len(octets)
+
+
 def t4_gone(sx, n):
     w = worlds.T4World(sx, 0x20, 20, 9, 40, n, fill=0x41)
     return exercise(sx, w, "tt4:goes-silent", silence=True)
@@ -572,13 +604,14 @@ def partitions(tier):
         add("t4:blocks:%s" % tail, "t4_blocks", nsym=1 if tier == "quick" else 2, tail=tail)
     add("t4:long-read", "t4_long_read")
     add("t4:v3-big", "t4_v3_big")
+    add("t4:v3-32k", "t4_v3_32k")
     add("t4:short-read", "t4_short_read")
     add("t4:gone", "t4_gone", n=30)
     return P
 
 
-MUST_REACH = ["activate_none", "ndef_none", "ndef_object"]
-BOUNDS = {"quick": "mutations of valid layouts with symbolic mutated fields (see module docstring): TLV length fields, CC bytes, control TLVs, Type 3 attribute block (symbolic fields, boundary sets for Nbr/Ln, Nbr up to 255 with Ln up to 4080), PMm, polling answers of every length with/without system code in SENSF_RES, arbitrary first read answers, Type 4 CC file fields, NLEN/ENLEN around the end of the file for both mapping versions (guard bytes behind the file), MLe up to FFFFh with a 400-byte file, short and over-long READ BINARY answers, mapping version 3 with NLEN above 65535, ATS of 1..7 symbolic bytes, SENSB_RES protocol info; a fully symbolic Type 2 image of 3 data bytes; GET_VERSION variants; silence from every command index",
+MUST_REACH = ["v3_32k_object", "v3_32k_none", "activate_none", "ndef_none", "ndef_object"]
+BOUNDS = {"quick": "mutations of valid layouts with symbolic mutated fields (see module docstring): TLV length fields, CC bytes, control TLVs, Type 3 attribute block (symbolic fields, boundary sets for Nbr/Ln, Nbr up to 255 with Ln up to 4080), PMm, polling answers of every length with/without system code in SENSF_RES, arbitrary first read answers, Type 4 CC file fields, NLEN/ENLEN around the end of the file for both mapping versions (guard bytes behind the file), MLe up to FFFFh with a 400-byte file, short and over-long READ BINARY answers, mapping version 3 with NLEN above 65535, mapping version 3 with a 36 KiB file of position-dependent contents and messages ending around offset 8000h (octets compared with the file; the card reads P1 bit 8 as short file identifier per ISO/IEC 7816-4), ATS of 1..7 symbolic bytes, SENSB_RES protocol info; a fully symbolic Type 2 image of 3 data bytes; GET_VERSION variants; silence from every command index",
           "thorough": "fully symbolic T2 images of 3 data bytes under three CC sizes; ATS up to 9 bytes; two arbitrary ISO-DEP blocks"}
 OUTSIDE = ["fully symbolic images larger than stated", "more than one mutated structure per image", "NXP GET_VERSION/signature answer variants (concrete in C20's model)"]
 ASSUMPTIONS = ["tags answer well-framed: the simulators of env/tags.py with mutated contents"]
